@@ -390,6 +390,29 @@ int main(int argc, char** argv)
                 }
             }
         }
+        // try_lock storm: every actor hammers try_lock (and short timed attempts) on the same mutex
+        // at the same time; each attempt that reports success must really own the lock
+        if (!cvmode && R.chance(1, 3))
+        {
+            for (int a = 0; a < nact; ++a)
+            {
+                auto& s = scripts[a];
+                s.clear();
+                int n = 6 + (int) R.below(8);
+                for (int i = 0; i < n; ++i)
+                {
+                    if (w.mkind == 1 && R.chance(1, 4)) s.push_back({o_try_until, 1 + (long) R.below(3), false});
+                    else if (R.chance(1, 6))
+                    {
+                        s.push_back({o_lock, 0, false});
+                        s.push_back({o_unlock, 0, false});
+                        continue;
+                    }
+                    else s.push_back({o_try, 0, false});
+                    s.push_back({o_unlock, 0, true});
+                }
+            }
+        }
         bool stopstorm = cvmode && !ostimed && R.chance(1, 3);
         if (stopstorm)
         {
